@@ -50,6 +50,16 @@ void br_verif_fail(const char *what, const char *vm, long a, long b);
 #define BR_VERIF_PUBLIC(ptr, len)   ((void)0)
 #endif
 
+/*
+ * H4: guard bytes around the fixed-size work areas inside the public
+ * context structures (fields verif_guard_*, present only with BR_VERIF).
+ * They are poisoned for AddressSanitizer when a context is initialised,
+ * so that an overflow that stays inside the structure is reported too.
+ * No-op without AddressSanitizer.
+ */
+void br_verif_guard(void *p, size_t len, int poison);
+#define BR_VERIF_GUARD(field, poison)   br_verif_guard((field), sizeof (field), (poison))
+
 #else
 #define BR_VERIF_PUBLIC(ptr, len)   ((void)0)
 #endif
